@@ -61,7 +61,7 @@ SHARDS = {"quick": 1, "thorough": 1}  # this module runs its own pool of child p
 BUDGET = {"quick": 50, "thorough": 900}
 MIN_EVENTS = {"quick": 3000, "thorough": 50000}
 ASSUMPTIONS = [
-    "bounds: CPU <= 2 s + 2e-5 s/byte; address space growth <= max(256 MiB, 400 B/byte) (RLIMIT_AS, "
+    "bounds: CPU <= 5 s + 2e-5 s/byte; address space growth <= max(256 MiB, 400 B/byte) (RLIMIT_AS, "
     "an allocation failure under the cap is the 'out of proportion' event); peak RSS growth <= 64 MiB + 200 B/byte",
     "a file object that is still open after the loader returned or raised counts as leaked even if "
     "reference counting would close it later (the monitor holds a strong reference on purpose)",
@@ -73,7 +73,10 @@ HERE = os.path.dirname(os.path.dirname(os.path.dirname(os.path.abspath(__file__)
 NCHILD = int(os.environ.get("VERIF_C20_CHILDREN", "14"))
 CASES_PER_CHILD = 400
 LIMITS = {
-    "cpu_base": 2.0, "cpu_per_byte": 2e-5,
+    # CPU seconds measured in a child that shares the machine with 13 others: cache and memory
+    # bandwidth contention can double it, so the constant term is generous; a hang is
+    # interrupted at 1.5x the bound
+    "cpu_base": 5.0, "cpu_per_byte": 2e-5,
     "as_base": 256 * 2**20, "as_per_byte": 400,
     "rss_base": 64 * 2**20, "rss_per_byte": 200,
 }
